@@ -56,6 +56,9 @@ Proof. destruct k; cbn [kind_ok kind_limit limit_ok]; auto. Qed.
 (* every key is an int32 *)
 Definition keys_ok (b : list (Z * W)) : Prop := forall k w, In (k, w) b -> idx_ok k.
 
+(* The sparse store is the Layer A map itself: canonical, positive, and (this is what makes it an
+   acceptable ARGUMENT of MergeWith for the array-backed kinds, whose AddWithCount is only specified
+   on int32 indexes, and it is what every reachable sparse store satisfies) with int32 keys. *)
 Definition StInv (s : store) : Prop :=
   match s with
   | SD d => match lim d with
@@ -718,4 +721,16 @@ Proof.
   destruct (st_reachable (st_kind s) ops (StInv_kind_ok s H) Hops) as (s2 & E2 & I2 & K2 & A2).
   exists s1, s2. split; [exact E1|]. split; [exact E2|]. split; [exact I1|]. split; [exact I2|].
   split; [congruence|]. split; [exact K2|]. rewrite A1, A2, Ac, st_limit_kind, Kc. reflexivity.
+Qed.
+
+(* ---- summaries used by Props/Refine.v ---- *)
+Theorem st_new_spec k : kind_ok k -> StInv (st_new k) /\ st_kind (st_new k) = k /\ st_abs (st_new k) = [].
+Proof. intros H. split; [now apply StInv_new|]. split; [apply st_kind_new|apply st_abs_new]. Qed.
+Theorem st_observers_spec s :
+  StInv s ->
+  st_total s = total (st_abs s) /\ st_is_empty s = is_emptyb (st_abs s) /\
+  st_min s = min_key (st_abs s) /\ st_max s = max_key (st_abs s).
+Proof.
+  intros H. split; [now apply st_total_spec|]. split; [now apply st_is_empty_spec|].
+  split; [now apply st_min_spec|now apply st_max_spec].
 Qed.
